@@ -528,6 +528,10 @@ func (s *scope) Close() error {
 	close(s.done)
 
 	if s.root {
+		// Wait for the reporting goroutine to exit so that no periodic pass is
+		// still running (or about to flush) when the final report is made and
+		// after Close has returned.
+		s.wg.Wait()
 		s.reportRegistry()
 		if closer, ok := s.baseReporter.(io.Closer); ok {
 			return closer.Close()
